@@ -95,16 +95,46 @@ def stationKinds (hasMask : Bool) : List Kind :=
 def passes (sta : List Kind) (k : Kind) : Bool :=
   sta.any (fun sk => match (eventOf sk).head? with | some c => (eventOf k).contains c | none => false)
 
+/-- A listener as the caller creates it: its class and its `frame` argument.  `none` is `frame=None` ("the frame is
+unchanged", the default of `NodeListener`, `ApsideListener`, `AnomalyListener`): such a listener reads every state
+object in the frame THAT OBJECT has.  No state object is re-framed between the `listen` call that stores it as
+`listener.prev` and the next one that reads it again (`Speaker.listen` and `_bisect` only `copy`; since fix d3db55e
+`TopocentricFrame.visibility` converts a copy of each yielded point instead of the point itself), so this is always
+the frame the propagator produces its states in: the components `own`. -/
+abbrev Spec := Kind × Option Chan
+
+/-- the components a listener reads, given those of the states' own frame -/
+def Spec.chan (own : Chan) (s : Spec) : Chan := s.2.getD own
+
+def Spec.lst (own : Chan) (s : Spec) : Lst := mkLst s.1 (s.chan own)
+
+/-- `iter(listeners=specs, dates=samples)` of a propagator whose states have the components `own` in their own frame -/
+def iterS (own : Chan) (specs : List Spec) (st : List (Option Int)) (samples : List Int) : List Item :=
+  iter (specs.map (Spec.lst own)) st samples
+
+/-- the listeners `TopocentricFrame.visibility` hands to `orb.iter`: a copy of the caller's `listeners=` list, followed by
+the listener(s) given through `events=`, followed — when `events` is true — by `stations_listeners(self)` -/
+def visListeners (user : List Spec) (sta : Chan) (hasMask events : Bool) : List Spec :=
+  user ++ (if events then stationKinds hasMask else []).map (fun k => (k, some sta))
+
 /-- `TopocentricFrame.visibility(orb, listeners=…, events=…, dates=samples)`.
-`user`: the caller's listeners (`listeners=` followed by those given through `events=`), `sta`: the components of the
-state in the station's own frame, `events`: truth value of the `events` argument.
-Every point whose elevation `sta.phi` is negative is dropped unless its `event` is an instance of an event class of the
-STATION's own listeners. -/
-def visibility (user : List (Kind × Chan)) (sta : Chan) (hasMask events : Bool) (st : List (Option Int))
+`own`: the components of the states in the frame the propagator yields them in; `user`: the caller's listeners
+(`listeners=` followed by those given through `events=`), with or without a frame of their own; `sta`: the components of
+the state in the station's frame; `events`: truth value of the `events` argument.
+
+    for point in orb.iter(**kwargs):
+        point = point.copy(frame=self, form="spherical")
+        if point.phi < 0 and not isinstance(point.event, event_classes): continue
+        yield point
+
+The copy carries the date and the `event` of the point and leaves the point itself — still `listener.prev` of every
+listener — untouched, so the iteration underneath is exactly `iterS`.  Every point whose elevation `sta.phi` is negative
+is dropped unless its `event` is an instance of an event class of the STATION's own listeners. -/
+def visibility (own : Chan) (user : List Spec) (sta : Chan) (hasMask events : Bool) (st : List (Option Int))
     (samples : List Int) : List Item :=
   let sk := if events then stationKinds hasMask else []
-  let all := user ++ sk.map (fun k => (k, sta))
-  (iter (all.map (fun kc => mkLst kc.1 kc.2)) st samples).filter (fun it =>
+  let all := visListeners user sta hasMask events
+  (iterS own all st samples).filter (fun it =>
     !(decide (sta.phi it.t < 0) && !(match it.ev with
         | some (i, _) => (match all[i]? with | some kc => passes sk kc.1 | none => false)
         | none => false)))
